@@ -9,6 +9,7 @@ package main
 import (
 	"encoding/binary"
 	"encoding/json"
+	"errors"
 	"flag"
 	"fmt"
 	"math/rand"
@@ -16,10 +17,12 @@ import (
 	"os"
 	"path/filepath"
 	"strings"
+	"sync/atomic"
 	"time"
 
 	"golang.org/x/net/ipv4"
 	"golang.org/x/net/ipv6"
+	"golang.zx2c4.com/wireguard/conn"
 	"golang.zx2c4.com/wireguard/device"
 	"golang.zx2c4.com/wireguard/tun"
 
@@ -38,14 +41,20 @@ type Obs struct {
 	Ctr   uint64 `json:"ctr"`
 	Len   int    `json:"len"`
 	Plain []byte `json:"plain"`
+	Raw   []byte `json:"raw,omitempty"` // the datagram itself when nobody's keys open it
 }
 
 type Ev struct {
-	Kind string   `json:"k"` // tun, mtu, refhs, anshs, roam, shifths, expire
-	Peer int      `json:"peer,omitempty"`
-	Pkts [][]byte `json:"pkts,omitempty"`
-	Mtu  int      `json:"mtu,omitempty"`
-	Ep   int      `json:"ep,omitempty"`
+	Kind string `json:"k"` // tun, tunf, mtu, refhs, anshs, roam, shifths, expire, down, up
+	// tunf: the first bind.Send toward peer FaultPeer's endpoint transmits FaultK buffers and fails
+	// ("err": some errno; "gso": conn.ErrUDPGSODisabled{RetryErr: nil} after transmitting everything)
+	FaultPeer int      `json:"fp,omitempty"`
+	FaultK    int      `json:"fk,omitempty"`
+	FaultErr  string   `json:"ferr,omitempty"`
+	Peer      int      `json:"peer,omitempty"`
+	Pkts      [][]byte `json:"pkts,omitempty"`
+	Mtu       int      `json:"mtu,omitempty"`
+	Ep        int      `json:"ep,omitempty"`
 	// oracle / observed
 	Ridx uint32 `json:"ridx,omitempty"`
 	Obs  []Obs  `json:"obs"`
@@ -104,6 +113,7 @@ type hstate struct {
 	cur      []*ref.Session // latest session per peer
 	expired  []bool
 	down     bool
+	ep       []int    // current endpoint id per peer as far as the harness moved it
 	routable [][]byte // packets sent so far (for duplicates)
 }
 
@@ -144,6 +154,9 @@ func (h *hstate) describe(sent []sim.Sent) []Obs {
 		if o.Kind == 1 && o.Peer > 0 {
 			h.lastInit[o.Peer-1] = s.Data
 		}
+		if o.Peer == 0 {
+			o.Raw = s.Data
+		}
 		out = append(out, o)
 	}
 	return out
@@ -175,7 +188,7 @@ func run(sc *Scenario, src func(i int, h *hstate) *Ev) {
 	}
 	defer closeWorld(w)
 	start := time.Now()
-	h := &hstate{sc: sc, w: w, peers: peers, lastInit: make([][]byte, sc.NPeers), cur: make([]*ref.Session, sc.NPeers), expired: make([]bool, sc.NPeers)}
+	h := &hstate{sc: sc, w: w, peers: peers, lastInit: make([][]byte, sc.NPeers), cur: make([]*ref.Session, sc.NPeers), expired: make([]bool, sc.NPeers), ep: append([]int{}, sc.Eps...)}
 	for i := 0; ; i++ {
 		e := src(i, h)
 		if e == nil {
@@ -208,6 +221,29 @@ func run(sc *Scenario, src func(i int, h *hstate) *Ev) {
 		case "tun":
 			take(w.TunIn(ev.Pkts...))
 			h.routable = append(h.routable, ev.Pkts...)
+		case "tunf":
+			var fired atomic.Bool
+			target := netip.AddrPort{}
+			if ev.FaultPeer < len(h.ep) && h.ep[ev.FaultPeer] != 0 {
+				target = epAddr(h.ep[ev.FaultPeer])
+			}
+			fe := ev
+			w.Bind.SendErrFn = func(bufs [][]byte, to netip.AddrPort) (int, error) {
+				if to != target || !fired.CompareAndSwap(false, true) {
+					return 0, nil
+				}
+				if fe.FaultErr == "gso" {
+					return len(bufs), conn.ErrUDPGSODisabled{RetryErr: nil}
+				}
+				k := fe.FaultK
+				if k > len(bufs) {
+					k = len(bufs)
+				}
+				return k, errors.New("sim: sendmmsg: no buffer space available")
+			}
+			take(w.TunIn(ev.Pkts...))
+			w.Bind.SendErrFn = nil
+			h.routable = append(h.routable, ev.Pkts...)
 		case "mtu":
 			w.Tun.SetMTU(ev.Mtu)
 			take(w.TunEvent(tun.EventMTUUpdate))
@@ -226,6 +262,7 @@ func run(sc *Scenario, src func(i int, h *hstate) *Ev) {
 			h.cur[ev.Peer] = s
 			h.expired[ev.Peer] = false
 			h.lastInit[ev.Peer] = nil
+			h.ep[ev.Peer] = ev.Ep
 			ev.Ridx = s.LocalIdx
 			take(w.Inject(from, s.Next(nil)))
 		case "anshs":
@@ -243,6 +280,7 @@ func run(sc *Scenario, src func(i int, h *hstate) *Ev) {
 			h.cur[ev.Peer] = s
 			h.expired[ev.Peer] = false
 			h.lastInit[ev.Peer] = nil
+			h.ep[ev.Peer] = ev.Ep
 			ev.Ridx = s.LocalIdx
 			take(out)
 		case "roam":
@@ -250,6 +288,7 @@ func run(sc *Scenario, src func(i int, h *hstate) *Ev) {
 				continue
 			}
 			take(w.Inject(epAddr(ev.Ep), h.cur[ev.Peer].Next(nil)))
+			h.ep[ev.Peer] = ev.Ep
 		case "shifths":
 			w.Dev.VerifShiftHandshakeTimes(cosim.NoisePK(peers[ev.Peer].Pub), 6*time.Second)
 		case "expire":
@@ -430,6 +469,16 @@ func (g *gen) next(i int, h *hstate) *Ev {
 		for j := 0; j < k; j++ {
 			ev.Pkts = append(ev.Pkts, g.packet(h))
 		}
+		if !h.down && r.Intn(9) == 0 { // the bind refuses (part of) this peer's batch
+			ev.Kind = "tunf"
+			ev.FaultPeer = p
+			ev.FaultK = []int{0, 0, 1, 2, 3}[r.Intn(5)]
+			ev.FaultErr = "err"
+			if r.Intn(4) == 0 {
+				ev.FaultErr = "gso"
+				ev.FaultK = 1 << 20
+			}
+		}
 		return ev
 	case x < 68:
 		g.mtu = mtus[r.Intn(len(mtus))]
@@ -573,6 +622,45 @@ func directed() []*Scenario {
 		{Kind: "anshs", Peer: 1, Ep: 2},
 	}
 	out = append(out, sc4)
+	// bind.Send errors: what the bind did not transmit is never transmitted, nothing goes out twice, and
+	// unroutable plaintext read into recycled buffers never reaches the wire
+	sc6 := &Scenario{Kind: "scenario", Gen: "directed-send-errors", NPeers: 2, Table: tbl, MTU: 1420, TunBatch: 4, Eps: []int{1, 2}}
+	junk := func(n int) [][]byte {
+		var o [][]byte
+		for j := 0; j < n; j++ {
+			x := make([]byte, 300)
+			for i := range x {
+				x[i] = 0xbb
+			}
+			x[0] = 0x45
+			copy(x[16:], []byte{9, 9, 9, byte(j)})
+			o = append(o, x)
+		}
+		return o
+	}
+	a3 := func(t uint16) [][]byte {
+		return [][]byte{v4to([4]byte{10, 1, 9, 1}, 61, t), v4to([4]byte{10, 1, 9, 2}, 77, t+1), v4to([4]byte{10, 1, 9, 3}, 100, t+2)}
+	}
+	sc6.Evs = []Ev{{Kind: "refhs", Peer: 0, Ep: 1}, {Kind: "refhs", Peer: 1, Ep: 2},
+		{Kind: "tunf", Pkts: a3(1), FaultPeer: 0, FaultK: 0, FaultErr: "err"},
+		{Kind: "tun", Pkts: junk(4)},
+		{Kind: "tun", Pkts: [][]byte{v4to([4]byte{10, 1, 9, 4}, 50, 10), v4to([4]byte{10, 1, 2, 4}, 51, 11)}},
+		{Kind: "tunf", Pkts: a3(20), FaultPeer: 0, FaultK: 1, FaultErr: "err"},
+		{Kind: "tun", Pkts: junk(3)},
+		{Kind: "tun", Pkts: [][]byte{v4to([4]byte{10, 1, 9, 5}, 52, 30), v4to([4]byte{10, 1, 9, 6}, 53, 31)}},
+		{Kind: "tunf", Pkts: append(a3(40), v4to([4]byte{10, 1, 2, 5}, 54, 43)), FaultPeer: 0, FaultK: 1 << 20, FaultErr: "gso"},
+		{Kind: "tun", Pkts: junk(2)},
+		{Kind: "tun", Pkts: [][]byte{v4to([4]byte{10, 1, 9, 7}, 55, 50), v4to([4]byte{10, 1, 2, 6}, 56, 51)}},
+		{Kind: "tunf", Pkts: a3(60), FaultPeer: 0, FaultK: 2, FaultErr: "err"},
+		{Kind: "tun", Pkts: [][]byte{v4to([4]byte{10, 1, 2, 7}, 57, 70)}},
+		{Kind: "tun", Pkts: a3(80)},
+		{Kind: "expire", Peer: 1}, {Kind: "shifths", Peer: 1},
+		{Kind: "tunf", Pkts: [][]byte{v4to([4]byte{10, 1, 2, 8}, 58, 90)}, FaultPeer: 1, FaultK: 0, FaultErr: "err"}, // the initiation is refused
+		{Kind: "shifths", Peer: 1},
+		{Kind: "tun", Pkts: [][]byte{v4to([4]byte{10, 1, 2, 9}, 59, 91)}},
+		{Kind: "anshs", Peer: 1, Ep: 2},
+	}
+	out = append(out, sc6)
 	// buffer history: long unroutable packets full of non-zero bytes are dropped by the reader, which
 	// keeps their buffers for the next read; the short routable packets that follow must be padded with zeros
 	for _, tb := range []int{1, 4} {
@@ -686,6 +774,15 @@ func gallina(sc *Scenario) string {
 				b.WriteString(dpath.Packed(p))
 			}
 			b.WriteString("]")
+		case "tunf":
+			b.WriteString("RTunF [")
+			for j, p := range ev.Pkts {
+				if j > 0 {
+					b.WriteString(";")
+				}
+				b.WriteString(dpath.Packed(p))
+			}
+			fmt.Fprintf(&b, "] %d %d", ev.FaultPeer, ev.FaultK)
 		case "mtu":
 			fmt.Fprintf(&b, "RMtu %d", ev.Mtu)
 		case "refhs":
